@@ -14,8 +14,8 @@ def run(out, sc, tier, seed):
     run_model(out, sc, "MC_Cmp", ["Inv_Trichotomy_NoExclusion"], label="MC_Cmp[negative: no deviation region]",
               expect_violation="Inv_Trichotomy_NoExclusion", what="non-vacuity: TLC must find http://a vs http://a/")
     out.exhaustive = True
-    p = {"gen": "cmpfam", "seed": seed, "nfam": 15 if tier == "quick" else 200, "n": 5000 if tier == "quick" else 200000,
-         "n3": 5000 if tier == "quick" else 200000}
+    p = {"gen": "cmpfam", "seed": seed, "nfam": 15 if tier == "quick" else 200, "n": 5000 if tier == "quick" else 80000,
+         "n3": 5000 if tier == "quick" else 80000}
     shards = []
     for be in ("c", "py"):
         shards += run_driver(sc, "cmp", p, "cmp", backend=be, nslices=10, shard_size=3000)
